@@ -77,8 +77,16 @@ def run(ctx):
     from ..rules_xbar import crossbar_shape
     crossbar_shape(ctx, "L6", AL, "AXILiteCrossbar", "AXILiteDecoder", "AXILiteArbiter")
     crossbar_shape(ctx, "L6", AF, "AXICrossbar", "AXIDecoder", "AXIArbiter")
+    ctx.rule("L8", "a request is routed by its address: the internal busses of the shared interconnects and crossbars (AXI-Lite and "
+                   "AXI) are as wide as the widest master's address -- constructors interpreted on masters of different widths in "
+                   "both orders", min_sites=4)
+    from ..rules_xbar import internal_bus_width
+    internal_bus_width(ctx, "L8", AL, ("AXILiteInterconnectShared", "AXILiteCrossbar"), "AXILiteInterface", "address_width", "address_width",
+                       extra_funcs=("litex/soc/interconnect/axi/axi_common.py",))
+    internal_bus_width(ctx, "L8", AF, ("AXIInterconnectShared", "AXICrossbar"), "AXIInterface", "address_width", "address_width",
+                       extra_funcs=("litex/soc/interconnect/axi/axi_common.py",))
     for rel, ccls, acls, dcls, full in FAMILIES:
-        # ============================================================ L1
+    # ============================================================ L1
         from ..rules_stream import s_range
         s_range(ctx, "L1", fx_of(ctx, rel, ccls), ccls, "self.counter")
         fx = fx_of(ctx, rel, ccls)
